@@ -27,8 +27,13 @@ import (
 	"github.com/hattya/go.sh/printer"
 )
 
+// c01Procs: the two GODEBUG settings, plus the schedule phase, whose workers are the binary built with -tags verif.
+func c01Procs(string) []procCfg {
+	return []procCfg{{name: "panicnil=1", env: []string{"GODEBUG=panicnil=1"}}, {name: "panicnil=0", env: []string{"GODEBUG=panicnil=0"}}, {name: "schedules", exe: "vcheck-verif"}}
+}
+
 func panicnilProcs(string) []procCfg {
-	return []procCfg{{"panicnil=1", []string{"GODEBUG=panicnil=1"}}, {"panicnil=0", []string{"GODEBUG=panicnil=0"}}}
+	return []procCfg{{name: "panicnil=1", env: []string{"GODEBUG=panicnil=1"}}, {name: "panicnil=0", env: []string{"GODEBUG=panicnil=0"}}}
 }
 
 // parserCorpora enumerates the sources of the totality checks:
@@ -84,7 +89,15 @@ type c01Case struct {
 	Kind   string            `json:"source_kind"`
 	Alias  map[string]string `json:"aliases,omitempty"`
 	Single bool              `json:"parse_command,omitempty"`
+	// schedule phase (binary built with -tags verif): the choice sequence of the controlled scheduler
+	Schedule []int `json:"schedule,omitempty"`
 }
+
+// set by c01sched.go (build tag verif)
+var (
+	c01SchedulePhase  func(w *W)
+	c01ScheduleReplay func(c c01Case) error
+)
 
 func c01Source(kind, src string) interface{} {
 	switch kind {
@@ -152,13 +165,23 @@ func init() {
 	register(&check{
 		id:    "C01",
 		level: "model_checking",
-		procs: panicnilProcs,
+		procs: c01Procs,
 		rule: "every symbol string of the tier's alphabets/bounds and every character string ≤ 5 (quick) / 6 (thorough) over {a ' \" \\ $ { } ( ) ` # < newline blank}, each parsed from a string, a []byte, a one-byte-at-a-time io.Reader, a bufio.Reader and a custom io.RuneScanner, " +
-			"by ParseCommands and ParseCommand; the shorter strings additionally under 7 alias tables (self reference, 2- and 3-cycles, trailing blanks, operators, reserved words, newline, unterminated quote); one construct repeated or nested n = 1…24 (thorough 64) times for 45 constructs (here-documents per line and per group, substitutions, quotes, lists, case items, elif chains, every nesting form); every alias value of ≤ 3 (thorough 4) characters over {a blank newline ; ' # $ ( ` \\ | x \" < ) { }} in 3 tables × 7 sources; everything under GODEBUG=panicnil=0 and =1; " +
+			"by ParseCommands and ParseCommand; the shorter strings additionally under 7 alias tables (self reference, 2- and 3-cycles, trailing blanks, operators, reserved words, newline, unterminated quote); one construct repeated or nested n = 1…24 (thorough 64) times for 45 constructs (here-documents per line and per group, substitutions, quotes, lists, case items, elif chains, every nesting form); every alias value of ≤ 3 (thorough 4) characters over {a blank newline ; ' # $ ( ` \\ | x \" < ) { }} in 3 tables × 7 sources; everything under GODEBUG=panicnil=0 and =1; plus a schedule phase on the build with -tags verif: every interleaving of the lexer and parser goroutines with ≤ 1 (thorough 2) preemptions for ≈ 150 sources (each here-document template of C08, every construct repeated or nested once and twice, inputs that end inside a here-document / substitution / quote) — the call must return under each; " +
 			"non-trivial = the source is not accepted (error paths are where the lexer bails out)",
 		assume: []string{"each case runs in a GOMAXPROCS=1 worker process; after the call the worker yields until the goroutines started by it are gone, so an asynchronous crash is attributed to its case",
-			"a blocked call shows as the Go runtime's deadlock abort or as the parent's no-progress watchdog; the schedule dimension of 'never blocks' is C06's"},
+			"a blocked call shows as the Go runtime's deadlock abort or as the parent's no-progress watchdog; in the schedule phase as a state of the controlled scheduler in which the caller has not returned and no goroutine is enabled; what the call returns under each schedule is C06's and C08's"},
 		run: func(w *W) {
+			if w.proc == "schedules" {
+				// schedule dimension (c01sched.go)
+				if c01SchedulePhase != nil {
+					c01SchedulePhase(w)
+				} else {
+					w.Note("schedule phase skipped: the worker is built without -tags verif")
+					w.res.Incomplete = true
+				}
+				return
+			}
 			kinds := []string{"string", "bytes", "reader", "bufio", "runescanner"}
 			parserCorpora(w, func(kind, src string) {
 				w.Announce(src)
@@ -255,6 +278,12 @@ func init() {
 			var c c01Case
 			if err := json.Unmarshal(raw, &c); err != nil {
 				return err
+			}
+			if c.Kind == "schedule" {
+				if c01ScheduleReplay == nil {
+					return fmt.Errorf("a schedule case needs the binary built with -tags verif (./check replay uses it)")
+				}
+				return c01ScheduleReplay(c)
 			}
 			if c.Src == "" {
 				var cr struct {
